@@ -98,6 +98,47 @@ pub fn gen_poly(rng: &mut Rng, thorough: bool) -> PolyIn {
   PolyIn { depth, verts, centre, rho, convex, class }
 }
 
+/// thin wedge in a polar cap: one vertex 0.1..0.25 rad from the pole on one side of a meridian k pi/2, two vertices
+/// 0.3..0.5 rad further down on the other side: long edges crossing the meridian (lon = 0 for k = 0), the case in which the
+/// exact mode splits an edge at the meridian
+pub fn gen_wedge(rng: &mut Rng) -> PolyIn {
+  let depth = 4 + rng.below(6) as u8;
+  let south = rng.chance(0.5);
+  let m = rng.below(4) as f64 * PI / 2.0;
+  let side = if rng.chance(0.5) { 1.0 } else { -1.0 };
+  let colat0 = 0.1 + 0.15 * rng.f01();
+  let colat1 = colat0 + 0.3 + 0.15 * rng.f01();
+  let l0 = m - side * (0.02 + 0.1 * rng.f01());
+  let l1 = m + side * (0.05 + 0.08 * rng.f01());
+  let l2 = m + side * (0.15 + 0.1 * rng.f01());
+  let sg = if south { -1.0 } else { 1.0 };
+  let norm = |l: f64| l - 2.0 * PI * (l / (2.0 * PI)).floor();
+  let mut verts = vec![(norm(l0), sg * (PI / 2.0 - colat0)), (norm(l1), sg * (PI / 2.0 - colat1)), (norm(l2), sg * (PI / 2.0 - colat1))];
+  if rng.chance(0.5) { verts.reverse(); }
+  let (centre, rho) = enclosing_cone(&verts, None);
+  PolyIn { depth, verts, centre, rho: rho * (1.0 + 1e-9), convex: true, class: "polar-cap-wedge-across-a-meridian" }
+}
+
+/// a small cone containing every vertex (hence the polygon, for radii below pi/2): the best of a few candidate centres
+pub fn enclosing_cone(verts: &[(f64, f64)], given: Option<((f64, f64), f64)>) -> ((f64, f64), f64) {
+  let mut cands: Vec<(f64, f64)> = Vec::new();
+  let mut c = [0.0f64; 3];
+  for v in verts { let u = v3(*v); c[0] += u[0]; c[1] += u[1]; c[2] += u[2]; }
+  let ll = |c: [f64; 3]| -> (f64, f64) { let n = (c[0] * c[0] + c[1] * c[1] + c[2] * c[2]).sqrt(); let lon = c[1].atan2(c[0]); (if lon < 0.0 { lon + 2.0 * PI } else { lon }, (c[2] / n).max(-1.0).min(1.0).asin()) };
+  cands.push(ll(c));
+  // midpoint of the farthest pair
+  let (mut bi, mut bj, mut bd) = (0, 0, -1.0);
+  for i in 0..verts.len() { for j in i + 1..verts.len() { let d = hav(verts[i], verts[j]); if d > bd { bd = d; bi = i; bj = j; } } }
+  let (a, b) = (v3(verts[bi]), v3(verts[bj]));
+  cands.push(ll([a[0] + b[0], a[1] + b[1], a[2] + b[2]]));
+  let mut best = given;
+  for c in cands {
+    let r = verts.iter().map(|v| hav(*v, c)).fold(0.0, f64::max);
+    if best.map_or(true, |(_, br)| r < br) { best = Some((c, r)); }
+  }
+  best.unwrap()
+}
+
 pub fn poly_case(out: &mut Out, rng: &mut Rng, p: &PolyIn, exact: bool) {
   let l = get_or_create(p.depth);
   if std::env::var("HPX_TRACE").is_ok() { eprintln!("TRACE polygon depth={} exact={} rho={} verts={:?}", p.depth, exact, p.rho, p.verts); }
@@ -142,17 +183,19 @@ pub fn poly_case(out: &mut Out, rng: &mut Rng, p: &PolyIn, exact: bool) {
   for v in &p.verts {
     if let Some(h) = catch(|| l.hash(v.0, v.1)) { if cover.state(p.depth, h).is_none() { out.violation("C12:vertex-cell-missing", inp.clone(), format!("cell {} of vertex {:?}", h, v), format!("absent ({} entries)", m.entries.len())); return; } }
   }
-  let take = m.entries.len().min(150);
+  // "that cone": any cone the polygon fits in; the smallest one found is the sharpest instance of the claim
+  let (tc, trho) = enclosing_cone(&p.verts, Some((p.centre, p.rho)));
+  let take = if exact { m.entries.len().min(4000) } else { m.entries.len().min(150) };
   for k in 0..take {
     let e = m.entries[(k * m.entries.len() / take.max(1)).min(m.entries.len() - 1)];
     if let Some((d, h, full)) = decode_raw(e, m.get_depth_max()) {
       let ld = get_or_create(d);
       let cc = ld.center(h);
       if p.rho < 0.3 {
-        let bound = p.rho + 2.0 * largest_c2v_of_depth(d) * (1.0 + 1e-9) + 1e-12;
+        let bound = trho * (1.0 + 1e-9) + 2.0 * largest_c2v_of_depth(d) * (1.0 + 1e-9) + 1e-12;
         // finding F19: below ~1e-7 rad the sign of (v_i x v_{i+1}) . p is rounding noise (|v_i x v_{i+1}| . distance < 1e-16)
         let tiny = if p.rho < 1e-7 { ":polygon-below-1e-7-rad" } else { "" };
-        if hav(cc, p.centre) > bound { out.violation(&format!("C12:not-tight{}", tiny), inp.clone(), format!("centre within {:e} of the bounding cone centre", bound), format!("cell {}/{} at {:e}", d, h, hav(cc, p.centre))); return; }
+        if hav(cc, tc) > bound { out.violation(&format!("C12:not-tight{}", tiny), inp.clone(), format!("centre within {:e} of the centre ({}, {}) of an enclosing cone of radius {:e}", bound, tc.0, tc.1, trho), format!("cell {}/{} at {:e}", d, h, hav(cc, tc))); return; }
       }
       if full && p.convex {
         let mut pts: Vec<(f64, f64)> = ld.vertices(h).to_vec(); pts.push(cc);
@@ -184,6 +227,10 @@ pub fn run_c12(out: &mut Out, rng: &mut Rng, thorough: bool) {
     let p = gen_poly(rng, thorough);
     let exact = k % 3 == 2 || (p.class.starts_with("polar-cap-on") && k % 3 == 1);
     poly_case(out, rng, &p, exact);
+  }
+  for k in 0..(if thorough { 1500 } else { 250 }) {
+    let p = gen_wedge(rng);
+    poly_case(out, rng, &p, k % 4 != 0);
   }
 }
 
